@@ -489,6 +489,9 @@ def c14_rebuild(rp):
     m1 = mk_model(name, rp["params"], limit_sigma=bool(rp.get("a", False)))
     m2 = mk_model(name, rp["params"], limit_sigma=bool(rp.get("a", False)))
     g1 = mk_game(name, rp["game"])
+    if rp.get("twins"):
+        for i in range(1, len(g1)):
+            g1[i][0] = copy.deepcopy(g1[0][0])
     g2 = [[m2.rating(p.mu, p.sigma) for p in t] for t in g1]
     if rp.get("via") == "create_rating":
         g2 = [[m2.create_rating([p.mu, p.sigma]) for p in t] for t in g1]
